@@ -2,6 +2,8 @@ CONSTANTS Ws = {1, 2, 3}  Hs = {1, 2, 3}  SBs = {0, 1, 2}  TABs = {0, 1, 2}  Max
   Kind = "rec"  Bug = ""  Props = {"C18"}  EmitMode = "branch"  EmitMod = 1
 CONSTANT Bytes <- MCBytes
 CONSTANT CurVals <- MCCurVals
+CONSTANT Chunks <- MCChunk1
+CONSTANT Cols <- MCCols1
 INIT Init
 NEXT Next
 INVARIANT NoMismatch
